@@ -81,16 +81,20 @@ fn main() {
                         let mut dumps: BTreeMap<String, (Vec<usize>, Vec<usize>, Vec<usize>)> = BTreeMap::new();
                         let mut gathers = 0u64;
                         let mut first_bad: Option<(String, String, serde_json::Value)> = None;
-                        let r = enumerate_orders(&members, &cfg, members.len() <= if thorough { 4 } else { 3 }, &mut gathers, |run| {
+                        let r = catch(|| enumerate_orders(&members, &cfg, members.len() <= if thorough { 4 } else { 3 }, &mut gathers, |run| {
                             let got: Vec<RFamily> = run.result.iter().map(RFamily::from_proto).collect();
                             let dump = got.iter().map(|f| f.key(true)).collect::<Vec<_>>().join("\n");
                             dumps.entry(dump).or_insert((run.reg_order.clone(), run.collect_order.clone(), run.label_order.clone()));
                             if first_bad.is_none() {
                                 // history: the first registered member is unregistered, then gather again
+                                if let Some(e) = &run.unregister_error {
+                                    first_bad = Some(("unregister-failed".into(), e.clone(), json!({"engine":"enum","members": run.members, "config": format!("{:?}", run.cfg), "detail": e})));
+                                }
                                 let rest: Vec<usize> = run.members.iter().cloned().filter(|m| *m != run.unregistered).collect();
                                 let exp2 = reference_gather(&rest, &run.cfg);
                                 let got2: Vec<RFamily> = run.after_unregister.iter().map(RFamily::from_proto).collect();
-                                if let Some((class, detail)) = compare(&got2, &exp2) {
+                                if first_bad.is_some() {
+                                } else if let Some((class, detail)) = compare(&got2, &exp2) {
                                     let detail = format!("after unregistering {:?}: {}", POOL[run.unregistered].name, detail);
                                     first_bad = Some((format!("after-unregister:{}", class), detail.clone(), json!({"engine":"enum","members": run.members, "unregistered": run.unregistered, "config": format!("{:?}", run.cfg), "registration_order": run.reg_order, "detail": detail})));
                                 }
@@ -100,9 +104,16 @@ fn main() {
                                     first_bad = Some((class, detail.clone(), json!({"engine":"enum","members": run.members, "member_names": run.members.iter().map(|i| POOL[*i].name).collect::<Vec<_>>(), "config": format!("{:?}", run.cfg), "registration_order": run.reg_order, "collect_order": run.collect_order, "label_map_order": run.label_order, "detail": detail})));
                                 }
                             }
-                        });
+                        }));
                         local.evaluations += gathers;
                         local.transitions += gathers * (members.len() as u64 + 2);
+                        let r = match r {
+                            Ok(r) => r,
+                            Err(p) => {
+                                local.violation("panic", format!("members {:?} config {:?}: register/gather/unregister panicked: {}", members, cfg, p), json!({"engine":"enum","members": members, "config": format!("{:?}", cfg), "detail": p}));
+                                Ok(())
+                            }
+                        };
                         if let Err(e) = r {
                             eprintln!("MACHINERY: {}", e);
                             std::process::exit(2);
@@ -138,6 +149,7 @@ fn main() {
     }
     rep.states = rep.evaluations;
     rep.traces = rep.evaluations;
+    rep.extra.insert("combinations_with_deterministic_collect_order".into(), json!(UNREALISED.load(std::sync::atomic::Ordering::Relaxed)));
     rep.assumptions = vec![
         "iteration orders are realised by rebuilding fresh HashMaps/Registries until every order has been observed; the set of orders covered is the full set".into(),
         "the position of the common labels inside a sample's label list is not prescribed, only that it is the same for every order".into(),
